@@ -1,7 +1,7 @@
-import ErgVerif.C01.ProgSim
-import ErgVerif.C01.Clean
+import ErgVerif.C01.LoopSim
+import ErgVerif.C01.CleanLoop
 /-!
-# C01 — Compiled bytecode computes what the source program means (stage 1: scalar fragment with `and`/`or`/`if` expressions, target 3.11)
+# C01 — Compiled bytecode computes what the source program means (stages 1–2: scalar fragment with `and`/`or`/`if` expressions and counting `for!` loops, target 3.11)
 
 Property theorems only. `compile` transcribes the code generator (Model.lean header lists the Rust functions),
 `runN`/`vmRun` is the model of the 3.11 evaluation loop for the emitted instructions, `runW` the source semantics with
@@ -13,19 +13,19 @@ namespace ErgVerif.C01
 
 /-- Compiler correctness w.r.t. the wrapper-aware source semantics, for every program of the fragment, with no side
     condition besides name hygiene: the machine halts, and with the printed lines and exit status of `runW`. -/
-theorem C01_compile_simulates (p : Prog) (code : List Instr) (hc : compile p = some code) (hns : NoShadow p) :
-    ∃ n, ∀ m, n ≤ m → runN code m VM.init = (runW p).1 := by
+theorem C01_compile_simulates (p : LProg) (code : List Instr) (hc : compileL p = some code) (hns : NoShadowT p) :
+    ∃ n, ∀ m, n ≤ m → runN code m VM.init = (runLW p).1 := by
   have hcode : CodeAt code 0 code := ⟨[], [], by simp, rfl⟩
-  exact (exec_stmts p code hc code 0 [] [] true hcode EnvOk.nil hns).runN
+  exact (exec_tops p code hc code 0 [] [] true hcode EnvOk.nil hns).runN
 
 /-- When no wrapper call changes a value or fails (`clean`, a computable flag), the wrapper-aware semantics is exactly
     the Python-semantics reading of the source. -/
-theorem C01_clean_is_python (p : Prog) (h : (runW p).2 = true) : (runW p).1 = runPy p :=
-  (execPy_of_clean p [] [] true h).2
+theorem C01_clean_is_python (p : LProg) (h : (runLW p).2 = true) : (runLW p).1 = runLPy p :=
+  (execTopsPy_of_clean p [] [] true h).2
 
 /-- Stage-1 statement of the property: the bytecode prints what the Python reading prints and ends the same way. -/
-theorem C01_stage1 (p : Prog) (code : List Instr) (hc : compile p = some code) (hns : NoShadow p)
-    (hclean : (runW p).2 = true) : ∃ n, ∀ m, n ≤ m → runN code m VM.init = runPy p := by
+theorem C01_stage1 (p : LProg) (code : List Instr) (hc : compileL p = some code) (hns : NoShadowT p)
+    (hclean : (runLW p).2 = true) : ∃ n, ∀ m, n ≤ m → runN code m VM.init = runLPy p := by
   obtain ⟨n, hn⟩ := C01_compile_simulates p code hc hns
   exact ⟨n, fun m hm => by rw [hn m hm, C01_clean_is_python p hclean]⟩
 
@@ -44,8 +44,8 @@ theorem C01_fuel_mono (code : List Instr) : ∀ (m k : Nat) (s : VM), (runN code
 
 /-- The executable `vmRun` (generous fixed fuel) used by the driver: whenever it does not report `outOfFuel`, its answer
     is the Python reading. -/
-theorem C01_vmRun (p : Prog) (code : List Instr) (hc : compile p = some code) (hns : NoShadow p)
-    (hclean : (runW p).2 = true) (hfuel : (vmRun code).exit ≠ .outOfFuel) : vmRun code = runPy p := by
+theorem C01_vmRun (p : LProg) (code : List Instr) (hc : compileL p = some code) (hns : NoShadowT p)
+    (hclean : (runLW p).2 = true) (hfuel : (vmRun code).exit ≠ .outOfFuel) : vmRun code = runLPy p := by
   obtain ⟨n, hn⟩ := C01_stage1 p code hc hns hclean
   have h1 := C01_fuel_mono code (1000 * codeSize code + 100000) (max n (1000 * codeSize code + 100000)) VM.init hfuel (by omega)
   rw [hn _ (by omega)] at h1
@@ -61,25 +61,31 @@ theorem C01_jumpArgs_small (n : Nat) (h : n < 131072) : (jumpArgs n).isSome = tr
 /-- Witness that the `clean` hypothesis is needed: a `Nat` wrapper around a negative difference (what the inference
     defect `({3} or {2}) - {4} : Nat` produces) makes the bytecode raise ValueError where the Python reading prints `-2`. -/
 theorem C01_witness_unclean :
-    let p : Prog := [.print [.bin .sub (.lit (.int 2) (some .nat)) (.lit (.int 4) (some .nat)) (some .nat)]]
-    (runW p).1 = ⟨[], .exc .valueError⟩ ∧ (runW p).2 = false ∧ runPy p = ⟨[['-', '2']], .ok⟩ := by
+    let p : LProg := [.stmt (.print [.bin .sub (.lit (.int 2) (some .nat)) (.lit (.int 4) (some .nat)) (some .nat)])]
+    (runLW p).1 = ⟨[], .exc .valueError⟩ ∧ (runLW p).2 = false ∧ runLPy p = ⟨[['-', '2']], .ok⟩ := by
   decide
 
-/-- non-vacuity: a program with a definition, arithmetic, a comparison, an `if` expression, `and`/`or`/`not`, unary minus and three prints
-    compiles, is clean, and the model machine prints what the Python reading prints -/
+/-- non-vacuity: a program with a definition, arithmetic, a comparison, an `if` expression, `and`/`or`/`not`, unary minus,
+    a counting loop with a two-chunk body and a loop that runs zero times compiles, is clean, and the model machine prints what
+    the Python reading prints -/
 example :
     let x := "::x_L1"
-    let p : Prog := [
-      .defv x (.lit (.int 3) (some .nat)),
-      .print [.bin .add (.var x (some .nat)) (.bin .mul (.lit (.int 4) (some .nat)) (.lit (.int 2) (some .nat)) (some .nat)) (some .nat),
-              .neg (.var x (some .nat)) (some .int)],
-      .print [.ite (.cmp .gt (.var x (some .nat)) (.lit (.int 5) (some .nat)) none) (.lit (.str ['a']) none)
-                (.bin .add (.lit (.str ['b']) (some .str)) (.lit (.str ['c']) (some .str)) none) (some .str)],
-      .print [.or (.and (.cmp .gt (.var x (some .nat)) (.lit (.int 2) (some .nat)) (some .bool))
+    let p : LProg := [
+      .stmt (.defv x (.lit (.int 3) (some .nat))),
+      .stmt (.print [.bin .add (.var x (some .nat)) (.bin .mul (.lit (.int 4) (some .nat)) (.lit (.int 2) (some .nat)) (some .nat)) (some .nat),
+              .neg (.var x (some .nat)) (some .int)]),
+      .stmt (.print [.ite (.cmp .gt (.var x (some .nat)) (.lit (.int 5) (some .nat)) none) (.lit (.str ['a']) none)
+                (.bin .add (.lit (.str ['b']) (some .str)) (.lit (.str ['c']) (some .str)) none) (some .str)]),
+      .forRange "i" (.lit (.int 0) (some .nat)) (.var x (some .nat))
+        [.defv "::y_L5" (.bin .mul (.var "i" (some .nat)) (.lit (.int 2) (some .nat)) (some .nat)),
+         .print [.var "::y_L5" (some .nat)]],
+      .forRange "j" (.var x (some .nat)) (.lit (.int 1) (some .nat)) [.print [.var "j" (some .nat)]],
+      .stmt (.print [.or (.and (.cmp .gt (.var x (some .nat)) (.lit (.int 2) (some .nat)) (some .bool))
                         (.not (.cmp .eq (.var x (some .nat)) (.lit (.int 5) (some .nat)) (some .bool)) (some .bool)) none)
-                  (.lit (.bool false) (some .bool)) (some .bool)]]
-    (compile p).isSome = true ∧ (runW p).2 = true ∧
-      (compile p).map vmRun = some (runPy p) ∧ runPy p = ⟨["11 -3".toList, "bc".toList, "True".toList], .ok⟩ := by
-  decide
+                  (.lit (.bool false) (some .bool)) (some .bool)])]
+    (compileL p).isSome = true ∧ (runLW p).2 = true ∧
+      (compileL p).map (fun c => runN c 400 VM.init) = some (runLPy p) ∧
+      runLPy p = ⟨["11 -3".toList, "bc".toList, "0".toList, "2".toList, "4".toList, "True".toList], .ok⟩ := by
+  decide +kernel
 
 end ErgVerif.C01
